@@ -1083,7 +1083,11 @@ class VariableComputation(DcopComputation):
         VariableComputation.
 
         """
-        value = random.choice(self.variable.domain)
+        # Pick an index rather than using random.choice: numpy's choice
+        # converts the selected value to a numpy scalar (e.g. numpy.int64),
+        # which is not the domain's value and cannot be serialized.
+        domain = self.variable.domain
+        value = domain[random.randint(len(domain))]
         self.value_selection(value)
 
     def _on_value_selection(self, val, cost, cycle_count):
